@@ -1109,7 +1109,9 @@ class tzstr(tzrange):
         self._s = s
 
         res = parser._parsetz(s)
-        if res is None or res.any_unused_tokens:
+        if res is None or res.any_unused_tokens or (s and not res.stdabbr):
+            # (rules without the standard-time part, e.g. ',M3.2.0,M11.1.0',
+            # describe no zone; the empty string is GNU's spelling of UTC)
             raise ValueError("unknown string format")
 
         # Here we break the compatibility with the TZ variable handling.
